@@ -7,6 +7,11 @@ ALL = ["C%02d" % i for i in range(1, 21)]
 
 # property -> (category, technique, text, note, design_ref)
 CHECKS = {
+ "C02": ("model_checking",
+   "explicit-state breadth-first exploration of dataset operation histories, real DatasetBase API stepped in lock-step with a Vec<TaggedRow> reference model",
+   "States are identity-tagged datasets (record tag, target tag, weight, names, layout flag); every action of the listed alphabet (ratio splits of owned data and views for 6 ratios, shuffle, the three bootstraps, with_labels for every label subset, one_vs_all, map_targets, to_owned, view, into_single_target, chunking, the three iterators, fold) is applied through the real API to the owned value and to its view, every returned dataset is observed through the public accessors and compared with the same operation on the reference rows; successors are canonicalised and de-duplicated; random choices (shuffle permutations, bootstrap index vectors) are enumerated through a scripted RNG. Depth 2 (quick) / 3-4 (thorough) from 132/148 seed datasets, all histories - so non-initial states are covered.",
+   "Bounded: n <= 6 samples, depth <= 4; randomised operations are judged on their contract only; live ndarray views exist within one transition (results are materialised between steps).",
+   "DESIGN.md 3.2, 4/C02"),
  "C07": ("exploration",
    "bounded exhaustive enumeration of point sets x queries x k x boundary radii against a brute-force reference",
    "Every multiset of <=5 points of a 1-D lattice, every subset of <=5/6 points of the 3x3 lattice (plus generic-position images and a dimension sweep to d=16), every lattice / half-lattice query, every k in 0..n+2, every radius that is exactly an inter-point distance or a midpoint between two, all leaf sizes, five metrics, f32 and f64, all three index kinds: answers compared with a brute-force distance table, and the three kinds compared with each other on points lying exactly on the radius. Exhaustive within those bounds, so tie handling and boundary behaviour are decided, not sampled.",
